@@ -60,6 +60,7 @@ def run(ctx):
     r.rule("C08.schema", "token attributes: stored names are declared or read under the same name")
     r.rule("C08.order", "indent refresh dominates phase 4; normaliser order after phase 1")
     r.rule("C08.emit", "write-back prints the model's lines verbatim")
+    r.rule("C08.zerowidth", "a blank string whose length is a configured option or an action value is written into / created as a whitespace token only where that number is shown not to be zero (an empty whitespace token is in the model but in no parse of the written text)")
     r.explanation = (
         "The classifier's class->literal table is compared with every token instance a rule constructor builds and every literal-argument "
         "construction in rule code; all attribute stores/reads on token objects are collected into a schema; ordering facts in rule_list.fix "
@@ -71,6 +72,7 @@ def run(ctx):
     _schema(r, p, item)
     _order(r, p)
     _emit(r, p)
+    _zerowidth(r, p)
     return r
 
 
@@ -352,6 +354,83 @@ def _top(n, loop):
     while getattr(s, "_parent", None) is not loop:
         s = s._parent
     return s
+
+
+def _blank_multiplier(e):
+    """E of `" " * E` / `E * " "` (nested products multiplied out), else None"""
+    if isinstance(e, ast.BinOp) and isinstance(e.op, ast.Mult):
+        for a, b in ((e.left, e.right), (e.right, e.left)):
+            if isinstance(a, ast.Constant) and isinstance(a.value, str) and a.value != "" and a.value.strip(" \t") == "":
+                return b
+            m = _blank_multiplier(a)
+            if m is not None:
+                return ast.BinOp(left=m, op=ast.Mult(), right=b)
+    return None
+
+
+def _zerowidth(r, p):
+    from ..model import expand_text
+
+    conf = set()
+    for m in p.modules.values():
+        if m.name.startswith("vsg.rule"):
+            for n in ast.walk(m.tree):
+                if isinstance(n, ast.Call) and norm(n.func) == "self.configuration.append" and n.args and isinstance(n.args[0], ast.Constant):
+                    conf.add(n.args[0].value)
+    n_sites = n_bare = 0
+    for fi in sorted(p.functions.values(), key=lambda f: f.key):
+        if not fi.module.name.startswith("vsg.rules"):
+            continue
+        facts = None
+        for c in walk_function(fi.node):
+            if not isinstance(c, ast.Call):
+                continue
+            fn = norm(c.func).split(".")[-1]
+            cand = []
+            if fn in ("set_value", "whitespace") and len(c.args) == 1:
+                cand.append(c.args[0])
+            elif fn == "insert_whitespace":
+                for kw in c.keywords:
+                    if kw.arg == "num":
+                        cand.append(ast.BinOp(left=ast.Constant(value=" "), op=ast.Mult(), right=kw.value))
+                if len(c.args) >= 3:
+                    cand.append(ast.BinOp(left=ast.Constant(value=" "), op=ast.Mult(), right=c.args[2]))
+            for a in cand:
+                try:
+                    ex = ast.parse(expand_text(fi, a), mode="eval").body
+                except SyntaxError:
+                    continue
+                mexp = _blank_multiplier(ex)
+                if mexp is None:
+                    continue
+                n_sites += 1
+                t = norm(mexp)
+                bare_action = isinstance(mexp, ast.Subscript) and ("dAction" in norm(mexp.value) or "get_action" in norm(mexp.value))
+                bare_conf = isinstance(mexp, ast.Attribute) and norm(mexp.value) == "self" and mexp.attr in conf
+                if not (bare_action or bare_conf):
+                    continue  # computed lengths: value-level, not decided here
+                n_bare += 1
+                kk = "%s:blank-times:%s" % (fi.key, t)
+                if facts is None:
+                    facts = Facts(fi.node)
+                guarded = False
+                for g, pol in facts.conds_at(c):
+                    try:
+                        gt = expand_text(fi, ast.parse(g, mode="eval").body)
+                    except SyntaxError:
+                        gt = g
+                    if (gt in ("%s == 0" % t, "0 == %s" % t, "not %s" % t) and pol is False) or (gt in ("%s > 0" % t, "%s != 0" % t, "%s >= 1" % t, t) and pol is True):
+                        guarded = True
+                if guarded:
+                    r.ok("C08.zerowidth", kk, "the call is dominated by a test that the number is not zero")
+                elif r.tabled("C08.zerowidth", kk):
+                    r.ok("C08.zerowidth", kk, "tabled: " + r.tabled("C08.zerowidth", kk).get("reason", "")[:100], sample=False)
+                else:
+                    r.fail("C08.zerowidth", kk, "`%s` makes a whitespace token of `%s` blanks, a number taken from the %s that nothing here shows to be non-zero: with 0 the token list keeps an empty whitespace token that no parse of the written text contains" % (norm(c)[:60], t, "violation's action" if bare_action else "rule's configuration"), fi.loc(c))
+    r.extra["blank_products"] = n_sites
+    r.extra["blank_products_from_option_or_action"] = n_bare
+    if n_sites < 15 or n_bare < 5:
+        raise AnalysisError("only %d blank products (%d from an option or action value) found in rule code" % (n_sites, n_bare))
 
 
 def _emit(r, p):
